@@ -190,10 +190,14 @@ func (c *fnCtx) havocInitFor(ms *ModSet) {
 	}
 	c.em.regKey(initKey, "Bool", true)
 	old := c.heapGet(initKey)
+	wm := c.heapGet("$wm")
 	c.havocKey(initKey)
 	nw := c.heapGet(initKey)
 	for k := range ms.Keys {
 		if strings.HasPrefix(k, "ghost:sb") {
+			// the region obtains windows of its own: they live on arrays allocated inside it (every window is a
+			// new array in the buffer model), so the marks on arrays that existed before still only grow
+			c.em.assert(fmt.Sprintf("(forall ((a Int) (k Int)) (! (=> (and (<= (owner a) %s) (select (select %s a) k)) (select (select %s a) k)) :pattern ((select (select %s a) k))))", wm, old, nw, nw))
 			return
 		}
 	}
